@@ -322,6 +322,33 @@ def r4b_val_to_tensor(ctx):
         raise AnalysisError("C12.R4b", "anchor vanished: module-level val_to_tensor")
 
 
+def r4c_tensor_to_list(ctx):
+    """The writer side of the codec: a parameter is exported with every digit it has (`x.tolist()` of a float32 tensor gives the exact
+    double of each value, which reads back to the same float32).  Rounding / formatting / re-typing before export changes the value."""
+    ctx.rule("C12.R4c", "tensor_to_list exports the values unchanged (no rounding, formatting or narrowing cast)", 1)
+    LOSSY = ("round", "np.round", "numpy.round", "np.around", "torch.round", "format", "np.format_float", "float16", "half", "bfloat16", "np.float16", "np.float32", "astype(np.float32", "trunc", "floor", "ceil",
+             "np.set_printoptions", ":.")
+    seen = 0
+    for modname, m in sorted(ctx.ix.mods.items()):
+        for node in m.tree.body:
+            if not (isinstance(node, ast.FunctionDef) and node.name == "tensor_to_list"):
+                continue
+            seen += 1
+            rets = [r for r in statements(node) if isinstance(r, ast.Return) and r.value is not None]
+            for r in rets:
+                txt = U(r.value)
+                lossy = [t for t in LOSSY if t in txt]
+                plain = txt in ("x.tolist()", "x", "x.detach().tolist()", "x.detach().cpu().tolist()", "x.cpu().tolist()", "list(x)", "x.detach().cpu().numpy().tolist()", "x.numpy().tolist()")
+                if lossy:
+                    ctx.violation("C12.R4c", (modname, "tensor_to_list"), r, f"`{txt[:80]}` rounds / re-types the values before export (`{lossy[0]}`): a saved parameter no longer reads back to the value the model had")
+                elif plain:
+                    ctx.ok("C12.R4c", (modname, "tensor_to_list"), r, f"`{txt}`: exact export")
+                else:
+                    ctx.unknown("C12.R4c", (modname, "tensor_to_list"), r, f"`{txt[:80]}` is neither the plain export nor a recognised lossy one")
+    if seen == 0:
+        raise AnalysisError("C12.R4c", "anchor vanished: tensor_to_list")
+
+
 def r4_codec(ctx):
     ctx.rule("C12.R4", "parameters written with tensor_to_list, read with val_to_tensor(value, declared shape of the same variable)", 2)
     ix = ctx.ix
@@ -377,6 +404,7 @@ def rules(ctx):
     r3_mode_reset(ctx)
     r3b_model_side_population_init(ctx)
     r4b_val_to_tensor(ctx)
+    r4c_tensor_to_list(ctx)
     r4_codec(ctx)
     r5_rank(ctx)
     ctx.trust("json round trip of Python lists / numbers; tensor.tolist(); tensor.view")
